@@ -168,10 +168,9 @@ Proof. intros H. rewrite den_SeqL, den_Chars1. cbn [span]. rewrite H. reflexivit
 Lemma rest_of_bind_id (x : res (tree * str)) : rest_of (bind x (fun y => Ok (fst y, snd y))) = rest_of x.
 Proof. destruct x as [[t r]| |]; reflexivity. Qed.
 
-Theorem char_ref_language : forall s, rest_of (run G_xml R nt_char_ref s) = charref_rest s.
+Lemma den_char_ref f s : rest_of (denote G_xml (S f) (NT nt_char_ref) s) = charref_rest s.
 Proof.
-  intros s. unfold run. destruct (fuel6 s) as [k ->]. rewrite den_NT, body_char_ref.
-  set (f := S (S (S (S (S k))))). rewrite den_Alt.
+  rewrite den_NT, body_char_ref. rewrite den_Alt.
   rewrite !den_Map, !den_SeqR, !den_Tag.
   destruct s as [|c1 [|c2 u]]; cbn [prefix bind charref_rest]; try reflexivity.
   - destruct (N.eqb 38 c1); reflexivity.
@@ -190,6 +189,9 @@ Proof.
         destruct (denote G_xml f (SeqL (Chars1 (InR [(48, 57)]%N)) (Tag [59%N])) (x :: v)) as [[t r]| |] eqn:Ed;
           cbn [bind fst snd rest_of] in *; exact Hd.
 Qed.
+
+Theorem char_ref_language : forall s, rest_of (run G_xml R nt_char_ref s) = charref_rest s.
+Proof. intros s. unfold run. destruct (fuel6 s) as [k ->]. apply den_char_ref. Qed.
 
 Lemma spec_reference_charref u : W.spec_reference (38 :: 35 :: u)%N = charref_rest (38 :: 35 :: u)%N.
 Proof.
@@ -469,3 +471,191 @@ Proof.
   rewrite (rest_of_seql_tag _ _ _ _ _ Hr). rewrite <- comment_body_cm.
   destruct (W.p_comment_body r) as [[a r']|]; reflexivity.
 Qed.
+(** ** [5] Name as read by the specification against the grammar's name (a run of NameChars):
+    they differ exactly on the strings of finding D04 *)
+Lemma p_Name_run s :
+  W.p_Name s = if KnownD04 (fst (span NC s)) then None else Some (span NC s).
+Proof.
+  unfold W.p_Name. destruct s as [|c t]; [reflexivity|]. change (eval spec_NameStartChar c) with (NSC c).
+  change (W.span (eval spec_NameChar) t) with (span NC t). cbn [span].
+  destruct (NC c) eqn:Ec.
+  - destruct (span NC t) as [a b]. cbn [fst KnownD04]. rewrite Ec. cbn [andb].
+    destruct (NSC c); reflexivity.
+  - cbn [fst KnownD04]. destruct (NSC c) eqn:En; [|reflexivity].
+    rewrite (NSC_NC _ En) in Ec. discriminate.
+Qed.
+
+(** ** [16] PI, [17] PITarget *)
+Lemma body_pi : body G_xml nt_pi =
+  Map L_model_PI_from (SeqR (Tag [60;63]%N)
+    (SeqL (Seq (NT nt_pi_target) (Opt (SeqR (Chars1 ws) (TakeUntil (NT nt_multichar0) [63;62]%N)))) (Tag [63;62]%N))).
+Proof. reflexivity. Qed.
+
+(** what the generated parser does on the text after "<?" *)
+Definition pi_rest (r0 : str) : option str :=
+  let (tg, d) := span NC r0 in
+  if is_xml_ci tg then None
+  else match span W.isS d with
+       | ([], _) => prefix [63;62]%N d
+       | (_, d') => prefix [63;62]%N (tu_rest W.isChar [63;62]%N d')
+       end.
+
+Lemma den_pi_target f s :
+  denote G_xml (S (S (S f))) (NT nt_pi_target) s =
+  (let (c, d) := span NC s in if is_xml_ci c then Fail else Ok (TStr c, d)).
+Proof.
+  rewrite den_NT, body_pi_target. rewrite denote_eq. cbn [den1]. rewrite den_name.
+  unfold name_spec. destruct (span NC s) as [c d] eqn:E. cbn [bind fst snd].
+  destruct (span_spec _ _ _ _ E) as (-> & _ & _). rewrite consumed_app, ci_reject_xml. reflexivity.
+Qed.
+
+Theorem pi_language_exact : forall s,
+  rest_of (run G_xml R nt_pi s) = match prefix [60;63]%N s with Some r0 => pi_rest r0 | None => None end.
+Proof.
+  intros s. unfold run. destruct (fuel6 s) as [k ->]. rewrite den_NT, body_pi.
+  rewrite den_Map, rest_of_map, den_SeqR, den_Tag.
+  destruct (prefix [60;63]%N s) as [r0|]; [|reflexivity].
+  cbn [bind fst snd]. rewrite rest_of_bind_id. unfold pi_rest.
+  rewrite den_SeqL, den_Seq, den_pi_target.
+  destruct (span NC r0) as [tg d]. destruct (is_xml_ci tg); [reflexivity|].
+  cbn [bind fst snd]. rewrite den_Opt, den_SeqR, den_Chars1.
+  change (eval ws) with W.isS.
+  destruct (span W.isS d) as [[|x a] d'] eqn:Es.
+  - cbn [bind fst snd]. rewrite den_Tag. destruct (prefix [63;62]%N d); reflexivity.
+  - cbn [bind fst snd].
+    pose proof (den_tu_multichar (S (S (S (S k)))) [63;62]%N d') as Ht.
+    destruct (denote G_xml (S (S (S (S (S k))))) (TakeUntil (NT nt_multichar0) [63;62]%N) d') as [[t r]| |]; try discriminate.
+    cbn [rest_of] in Ht. injection Ht as ->. cbn [bind fst snd]. rewrite den_Tag.
+    destruct (prefix [63;62]%N (tu_rest W.isChar [63;62]%N d')); reflexivity.
+Qed.
+
+(** the specification, in the same terms, for a target that is not a D04 name *)
+Lemma spec_pi_rest r0 : KnownD04 (fst (span NC r0)) = false ->
+  option_map (fun x => snd x) (W.p_pi_body r0) = pi_rest r0.
+Proof.
+  intros Hk. unfold W.p_pi_body, pi_rest. rewrite p_Name_run, Hk.
+  destruct (span NC r0) as [tg d]. cbn [W.bind]. destruct (is_xml_ci tg); [reflexivity|].
+  change (W.strip W.s_pi_close d) with (prefix [63;62]%N d).
+  unfold W.p_S. change (W.span W.isS d) with (span W.isS d).
+  destruct (prefix [63;62]%N d) as [r'|] eqn:Ep.
+  - (* "?>" directly: no white space in front *)
+    destruct d as [|c d0]; [discriminate|]. cbn [prefix] in Ep.
+    destruct (N.eqb_spec 63 c) as [<-|]; [|discriminate].
+    cbn [span]. change (W.isS 63%N) with false. reflexivity.
+  - destruct (span W.isS d) as [[|x a] d'] eqn:Es.
+    + reflexivity.
+    + cbn [W.bind]. rewrite <- (scan_to_tu [63;62]%N eq_refl) by discriminate.
+      change W.s_pi_close with [63;62]%N.
+      destruct (W.scan_to [63;62]%N d') as [[b r]|]; reflexivity.
+Qed.
+
+Theorem pi_language_except_D04 : forall s r0, prefix [60;63]%N s = Some r0 ->
+  KnownD04 (fst (span NC r0)) = false ->
+  rest_of (run G_xml R nt_pi s) = W.spec_pi s.
+Proof.
+  intros s r0 Hp Hk. rewrite pi_language_exact, Hp. unfold W.spec_pi.
+  change (W.strip W.s_pi_open s) with (prefix [60;63]%N s). rewrite Hp. cbn [W.bind].
+  rewrite <- (spec_pi_rest r0 Hk). destruct (W.p_pi_body r0) as [[[t dd] r]|]; reflexivity.
+Qed.
+
+(** every PI of the specification is a PI of the parser, with the same rest (direction of C01) *)
+Theorem pi_complete : forall s r, W.spec_pi s = Some r -> rest_of (run G_xml R nt_pi s) = Some r.
+Proof.
+  intros s r H. unfold W.spec_pi in H. change (W.strip W.s_pi_open s) with (prefix [60;63]%N s) in H.
+  destruct (prefix [60;63]%N s) as [r0|] eqn:Hp; [|discriminate]. cbn [W.bind] in H.
+  assert (Hk : KnownD04 (fst (span NC r0)) = false).
+  { unfold W.p_pi_body in H. rewrite p_Name_run in H.
+    destruct (KnownD04 (fst (span NC r0))); [discriminate|reflexivity]. }
+  rewrite (pi_language_except_D04 s r0 Hp Hk). unfold W.spec_pi.
+  change (W.strip W.s_pi_open s) with (prefix [60;63]%N s). rewrite Hp. exact H.
+Qed.
+
+(** the parser accepts PIs that [16]/[17] do not allow: finding D04 *)
+Theorem pi_language_refuted : exists s r, rest_of (run G_xml R nt_pi s) = Some r /\ W.spec_pi s = None.
+Proof. exists [60;63;49;63;62]%N, []. split; vm_compute; reflexivity. Qed.
+(** ** [68] EntityRef, [67] Reference *)
+Lemma body_entity_ref : body G_xml nt_entity_ref =
+  Map L_model_Reference_entity (SeqR (Tag [38%N]) (SeqL (NT nt_name) (Tag [59%N]))).
+Proof. reflexivity. Qed.
+Lemma body_reference : body G_xml nt_reference = Alt (NT nt_entity_ref) (NT nt_char_ref).
+Proof. reflexivity. Qed.
+
+Definition ent_rest (s : str) : option str :=
+  match s with
+  | c :: t => if N.eqb c 38 then let (nm, d) := span NC t in prefix [59%N] d else None
+  | [] => None
+  end.
+
+Lemma den_entity_ref f s :
+  (denote G_xml (S (S (S (S f)))) (NT nt_entity_ref) s = Fail /\ ent_rest s = None) \/
+  (exists t r, denote G_xml (S (S (S (S f)))) (NT nt_entity_ref) s = Ok (t, r) /\ ent_rest s = Some r).
+Proof.
+  rewrite den_NT, body_entity_ref, den_Map, den_SeqR, den_Tag.
+  destruct s as [|c t]; [left; split; reflexivity|]. cbn [prefix]. rewrite (N.eqb_sym 38 c).
+  unfold ent_rest. destruct (N.eqb c 38); [|left; split; reflexivity]. cbn [bind fst snd].
+  rewrite den_SeqL, den_name. unfold name_spec. destruct (span NC t) as [nm d]. cbn [bind fst snd].
+  rewrite den_Tag. destruct (prefix [59%N] d) as [r|]; cbn [bind fst snd];
+    [right; do 2 eexists; split; reflexivity|left; split; reflexivity].
+Qed.
+
+(** the name position of a reference is a D04 name (and the reference is not a character reference) *)
+Definition ref_D04 (s : str) : bool :=
+  match s with
+  | c :: t => if N.eqb c 38 then
+                match t with
+                | x :: _ => if N.eqb x 35 then false else KnownD04 (fst (span NC t))
+                | [] => true
+                end
+              else false
+  | [] => false
+  end.
+
+Lemma hash_not_NC : NC 35%N = false.
+Proof. reflexivity. Qed.
+
+Lemma charref_rest_amp_hash s : charref_rest s <> None -> exists u, s = (38 :: 35 :: u)%N.
+Proof.
+  unfold charref_rest. destruct s as [|c1 [|c2 u]]; try (intros H; now elim H).
+  destruct (N.eqb_spec c1 38) as [->|]; [|intros H; now elim H].
+  destruct (N.eqb_spec c2 35) as [->|]; [|intros H; now elim H]. eauto.
+Qed.
+
+Ltac ent_cases k He :=
+  match goal with
+  | |- context [denote G_xml _ (NT nt_entity_ref) ?s] =>
+    destruct (den_entity_ref (S k) s) as [[-> He]|(? & ? & -> & He)]
+  end.
+
+Theorem reference_language_except_D04 : forall s, ref_D04 s = false ->
+  rest_of (run G_xml R nt_reference s) = W.spec_reference s.
+Proof.
+  intros s Hd. unfold run. destruct (fuel6 s) as [k ->]. rewrite den_NT, body_reference, den_Alt.
+  pose proof (den_char_ref (S (S (S (S k)))) s) as Hc.
+  destruct s as [|c t]; [ent_cases k He; [exact Hc|discriminate]|].
+  unfold W.spec_reference. unfold ref_D04 in Hd. unfold W.c_amp.
+  destruct (N.eqb_spec c 38) as [->|Hne].
+  - destruct t as [|x v]; [discriminate|].
+    destruct (N.eqb_spec x 35) as [->|Hx].
+    + (* character reference *)
+      ent_cases k He.
+      * rewrite Hc. symmetry. apply spec_reference_charref.
+      * exfalso. cbn [ent_rest span] in He. rewrite N.eqb_refl in He. rewrite hash_not_NC in He. cbn [prefix] in He.
+        change (N.eqb 59 35) with false in He. discriminate.
+    + (* entity reference *)
+      unfold W.p_ref. unfold W.c_hash. replace (N.eqb x 35) with false by (symmetry; now apply N.eqb_neq).
+      rewrite p_Name_run, Hd. cbn [W.bind].
+      ent_cases k He; unfold ent_rest in He; rewrite N.eqb_refl in He; destruct (span NC (x :: v)) as [nm d].
+      * rewrite Hc. unfold charref_rest. rewrite N.eqb_refl. replace (N.eqb x 35) with false by (symmetry; now apply N.eqb_neq).
+        cbn [andb]. destruct d as [|y r]; [reflexivity|]. cbn [prefix] in He. unfold W.c_semi. rewrite (N.eqb_sym y 59).
+        destruct (N.eqb 59 y); [discriminate|reflexivity].
+      * cbn [rest_of]. destruct d as [|y r']; [discriminate|]. cbn [prefix] in He. unfold W.c_semi. rewrite (N.eqb_sym y 59).
+        destruct (N.eqb 59 y); [injection He as ->; reflexivity|discriminate].
+  - replace (N.eqb c 38) with false by (symmetry; now apply N.eqb_neq).
+    ent_cases k He.
+    + rewrite Hc. unfold charref_rest. destruct t; [reflexivity|].
+      replace (N.eqb c 38) with false by (symmetry; now apply N.eqb_neq). reflexivity.
+    + cbn [ent_rest] in He. replace (N.eqb c 38) with false in He by (symmetry; now apply N.eqb_neq). discriminate.
+Qed.
+
+Theorem reference_language_refuted : exists s r, rest_of (run G_xml R nt_reference s) = Some r /\ W.spec_reference s = None /\ ref_D04 s = true.
+Proof. exists [38;59]%N, []. repeat split; vm_compute; reflexivity. Qed.
